@@ -7,7 +7,10 @@ the simulations of one process (so the ids differ between the first and the seco
 simulation, and in another process).  The model `Repro` (Model/Repro.lean) carries these identifiers explicitly
 in its state — module id per module, sender id per message, sleep id per `Sleep` and per timer-slot entry —
 draws them from an arbitrary `Ambient` supply, and uses them the way the code does (timer-slot entries are
-removed BY sleep id when `select!` drops its losing branches, the sender of a message is resolved BY module id).
+removed BY sleep id when `select!` drops its losing branches or a shutdown drops a module's tasks, the sender of
+a message is resolved BY module id).  Modules may shut down and restart (`shut`, `restart d` steps): `buf_process`
+drops the tokio runtime with its tasks, `ModuleRef::reset` builds the runtime of the next incarnation with a seed
+drawn from the stream at that point, the `ModuleRestartEvent` replays the start stage.
 The theorems say that nothing observable depends on the supply, as long as it is injective.
 
 The random stream (what `Builder::seeded(seed)` determines: `StdRng` output, and through the per-module `RngSeed`
@@ -105,7 +108,35 @@ theorem dispatch_order_is_event_set_order (net : Net) (a : Ambient) (s s' : Sim)
     handler draws and jitter, then the tasks in the order the scheduler polls them -/
 theorem module_event_consumes_prefix (net : Net) (a : Ambient) (s : Sim) (mi : Nat) (cb : Callback) (flush : Bool) :
     ∃ k, (moduleEvent net a s mi cb flush).stream = s.stream.drop k :=
-  moduleEvent_drops net a s mi cb flush
+  (moduleEvent_drops net a s mi cb flush).drop
+
+/-- **Restart seeds**: the `RngSeed` of EVERY tokio runtime a module gets — the one built at its first event
+    (`Rt::current`) and the one `AsyncCoreExt::reset` builds for each later incarnation when the module shuts
+    down — is an element of the simulation's random stream, hence determined by the `Builder` seed; so are the
+    `select!` start indices the harness observes after a restart (they are stream elements by construction). -/
+theorem restart_seed_from_stream (net : Net) (a : Ambient) (stream : List Nat) (fuel : Nat) :
+    ∀ x ∈ (run net a stream fuel).seeds, x.2 ∈ stream :=
+  finalSim_seeds net a stream fuel
+
+/-- the seed of the next incarnation is drawn where the code draws it: `resetStage` (the `ModuleRef::reset` half of
+    `buf_process`, after the emission buffer was flushed) takes the element at the front of the stream at that
+    moment, before `Module::reset` runs and before anything of the next incarnation -/
+theorem restart_seed_is_next_draw (net : Net) (a : Ambient) (s : Sim) (mi : Nat) (path : String) :
+    ∃ k, (resetStage net a s mi path).stream = (s.stream.drop 1).drop k
+      ∧ ∃ rest, (resetStage net a s mi path).seeds = s.seeds ++ (s.stream.head?.toList.map (fun x => (path, x))) ++ rest := by
+  unfold resetStage
+  simp only []
+  have h1 := (schedLoop_drops net a mi path
+      (execFuel (((s.pop.2).recordSeed path s).log path "reset" "H" "-" []) mi)
+      (((s.pop.2).recordSeed path s).log path "reset" "H" "-" [])).trans
+    (deactivate_drops net.skipEmpty _ mi)
+  obtain ⟨u, e, hs, hd, _⟩ := h1
+  refine ⟨u.length, ?_, e, ?_⟩
+  · have : (((s.pop.2).recordSeed path s).log path "reset" "H" "-" []).stream = s.stream.drop 1 := pop_stream s
+    rw [← this, hs]; simp
+  · rw [hd]
+    show (s.pop.2.seeds ++ _) ++ e = _
+    rw [pop_seeds]
 
 /-! ### non-vacuity -/
 
@@ -140,6 +171,29 @@ example : (finalSim exNet exAmb1 exStream 100).1.mods.map (·.id) = [255, 257, 2
 /-- … a losing `select!` branch was removed from its timer slot by sleep id (the emptied slot at 8 stays) … -/
 example : (finalSim exNet exAmb2 exStream 100).1.mods.map (fun m => m.pending.map (fun s => (s.time, s.entries.length))) =
     [[], [], [(8, 0)]] := by decide
+
+/-- a module that restarts itself: `m` spawns a task with a decisive `select!` in every incarnation; the message
+    from `p` makes it shut down at 2 and restart at 5; the old incarnation's sleeping task `w` is dropped -/
+def exNetR : Net :=
+  { mods := [⟨"m", 1, 0⟩, ⟨"p", 1, 1⟩],
+    links := [⟨"p", "m", some (2, 0)⟩],
+    rules := [("m", .start, [.spawn "s", .spawn "w"]),
+              ("p", .start, [.send "m" 1]),
+              ("m", .msg 1, [.draw, .restart 3])],
+    tasks := [("s", [.sel [1, 1], .draw]), ("w", [.sleep 10])],
+    skipEmpty := false }
+
+def exStreamR : List Nat := [71, 1, 72, 0, 5, 6, 73, 0, 1, 8, 99]
+
+/-- three runtimes were seeded (m, p, m again after the shutdown), each with the stream element that was next;
+    the dropped task is reported; the `select!` of incarnation 1 (start indices 0, 1 → winner 1) differs from
+    that of incarnation 0 (1, 0 → winner 0) because other stream elements reach it -/
+example : (run exNetR exAmb2 exStreamR 100).seeds = [("m", 71), ("p", 72), ("m", 73)]
+    ∧ (run exNetR exAmb2 exStreamR 100).unfinished = [("m", "w")]
+    ∧ ((run exNetR exAmb2 exStreamR 100).time, (run exNetR exAmb2 exStreamR 100).events,
+       (run exNetR exAmb2 exStreamR 100).rest, (run exNetR exAmb2 exStreamR 100).fault) = (15, 7, [99], none)
+    ∧ ((run exNetR exAmb2 exStreamR 100).trace.filter (fun o => o.what == "sel")).map (fun o => (o.time, o.args)) =
+        [(1, [0]), (6, [1])] := by decide
 
 /-- … and the traces agree (the instance of the theorem; its numeric part also by evaluation) -/
 example : (run exNet exAmb1 exStream 100).trace = (run exNet exAmb2 exStream 100).trace :=
